@@ -27,7 +27,7 @@ VARIANTS = [
     dict(id="c09-module-random", prop="C09", file=RND, expect="R09.2",
          old="        search_space = {param_name: param_distribution}\n", new="        search_space = {param_name: param_distribution}\n        numpy.random.shuffle([])\n"),
     dict(id="c09-truncnorm-no-rng", prop="C09", file=PD, expect="R09.2",
-         old="                    random_state=rng,\n                )\n            elif", new="                )\n            elif"),
+         old="                    random_state=rng,\n                )\n                # The inverse CDF saturates", new="                )\n                # The inverse CDF saturates"),
     dict(id="c09-gp-no-rng", prop="C09", file=GP, expect="R09.2",
          old="            rng=self._rng.rng,\n", new=""),
     dict(id="c09-gp-fresh-rng", prop="C09", file=GP, expect="R09.2",
